@@ -380,12 +380,18 @@ ConditionalConsistent ==
     Second2 /\ req.cond = "inm" /\ req.rng = "none" =>
         /\ (R.status = 304) <=> SameRep
         /\ R.status # 304 => (R.status = 200 /\ FullBody(R.body, Selected(req.ae)))
-\* dates: the original's time is the only one on the wire.  Nothing changed -> 304; the original rewritten ->
-\* 200.  (A rewritten SIBLING under an untouched original is not noticed by dates: observation (c).)
+\* dates: casket puts the ORIGINAL's time on the wire also when a sibling is served.  Whether a date should
+\* follow the served file instead is a free choice, so only what every choice must do is required: nothing
+\* changed -> 304; the original is what is served and it was rewritten -> 200 with the new bytes.
+\* (A rewritten SIBLING under an untouched original is not noticed by dates: observation (c).)
 DateConsistent ==
     Second2 /\ req.cond = "ims" /\ req.rng = "none" /\ req.ae = ae1 =>
         /\ (chg = "none" => R.status = 304)
-        /\ (chg = "orig" => (R.status = 200 /\ FullBody(R.body, Selected(req.ae))))
+        /\ (chg = "orig" /\ Selected(req.ae) = "id" => (R.status = 200 /\ FullBody(R.body, "id")))
+DateRangeSafe ==
+    Second2 /\ req.ifr = "date" /\ req.rng # "none" /\ req.cond = "none" =>
+        /\ (chg = "none" => R.status = (IF req.rng = "r999_" THEN 416 ELSE 206))
+        /\ (chg = "orig" /\ Selected(req.ae) = "id" => (R.status = 200 /\ R.body.parts = Whole("id")))
 \* If-Match with the stored tag: served iff that is a strong tag of the representation now selected
 PreconditionConsistent ==
     Second2 /\ req.cond = "im" /\ req.rng = "none" =>
@@ -435,6 +441,10 @@ NoBodyWhenNotAllowed == Cur /\ (R.status \in {304, 412} \/ R.method = "HEAD") =>
 FirstIsFull == Cur /\ step = 1 => (R.status = 200 /\ HasTag(R.wire.etag) /\ R.wire.lm = LM)
 
 Terminates == <>Terminal
+\* action properties (StaticCondLive.cfg): what went out at header time is what the client has - nothing after
+\* WriteHeader touches it; and the files only change between the requests, never under a request in flight
+WireFrozen == [][(pc \in {"body", "fin"}) => (wire' = wire)]_vars
+FilesChangeBetweenRequests == [][(fs' # fs) => (pc = "done" /\ step = 1)]_vars
 
 \* ---- observations: deviations from what HTTP asks for that cannot hand anybody wrong bytes.  TLC refutes
 \*      each of them on this model (StaticCond_observe.cfg, not part of ./check); none is judged on the code.
@@ -451,7 +461,7 @@ DateTracksSelected == Second2 /\ req.cond = "ims" /\ chg = "sel" => R.status = 2
 OutResp(r) == [status |-> r.status, ce |-> r.wire.ce, cl |-> r.wire.cl, weak |-> r.wire.etag.w, hastag |-> HasTag(r.wire.etag),
                lm |-> r.wire.lm, vary |-> r.wire.vary, ct |-> r.wire.ct, cr |-> r.wire.cr, ar |-> r.wire.ar,
                body |-> r.body, sel |-> r.sel]
-WorldOut(w) == [f \in Files |-> [ex |-> w[f].ex, mt |-> w[f].mt, size |-> w[f].size]]
+WorldOut(w) == [f \in Files |-> [ex |-> w[f].ex, mt |-> w[f].mt, ver |-> w[f].ver, size |-> w[f].size]]
 Case(dummy) ==
     [fam |-> fam, site |-> site.name, world |-> WorldOut(fs0), after |-> WorldOut(fs), ae1 |-> ae1.text, chg |-> chg,
      ae2 |-> req.ae.text, cond |-> req.cond, rng |-> req.rng, ifr |-> req.ifr, twin |-> twin,
